@@ -75,6 +75,37 @@ def body_nonfinite_model(E, n, with_h, proj):
     E.reach('nonfinite-model:checked')
 
 
+def body_sfista_overflow(E, n):
+    """regularised subproblem on a FINITE but huge model: the spectral norm of a finite matrix can overflow to +inf in binary64 (contract of
+    the LAPACK stub: any value in [0, +inf]), and so can the iteration-count formula; whatever they return, ctrsbox_sfista does not raise"""
+    np = E.np
+    xopt = E.vec('xo', n)
+    g = E.vec('g', n)
+    H = E.mat('H', n, n)
+    if n == 2:
+        H[1, 0] = H[0, 1]
+    delta = E.real('delta', npy=False)
+    Lh = E.real('Lh', npy=False)
+    E.assume(E.all([delta > 0, Lh > 0]))
+    E.cap_loops(1)
+    E.patch('dykstra', lambda P, x0, max_iter=100, tol=1e-10: x0.copy())
+    if E.symbolic:
+        E.hooks(la=lambda name, args, kw: E.real('normH', xr=True, lo=0) if name == 'norm2' else NotImplemented)
+    else:
+        # unit replay: the stub's value is fed where the symbolic run had the stub (binary64 overflow of the norm is what it stands for)
+        import numpy as _rnp
+        _orig = _rnp.linalg.norm
+        _val = E.real('normH', xr=True, lo=0)
+        E.patch_attr(_rnp.linalg, 'norm', lambda a, ord=None, **k: _val if (ord == 2 and _rnp.ndim(a) == 2 and _rnp.shape(a) != (1, 1)) else _orig(a, ord, **k))
+    try:
+        d, gnew, crvmin = E.get('ctrsbox_sfista')(xopt, g, H, [lambda w: w], delta, lambda x, *a: 0 * x[0], Lh, lambda x, u, *a: x,
+                                                   func_tol=E.const('0.001'), max_iters=2, use_fortran=False)
+    except Exception as e:     # noqa
+        E.fail('sfista-overflow:raises-' + type(e).__name__, detail=str(e)[:160])
+        return
+    E.reach('sfista-overflow:returned')
+
+
 def body_trsbox_nonfinite(E, n):
     """box / unconstrained path: trsbox has no guard against a non-finite model; whatever g (NaN, +-inf) and H (+-inf) hold,
     it must hand back a finite step inside the box without raising (the main loop takes scipy's norm of it)"""
@@ -122,6 +153,12 @@ def harnesses(tier, seed):
                               bounds="n=%d, m=1, model Jacobian and constant term NaN / +-inf / finite" % n,
                               assumptions=["ctrsbox_pgd / ctrsbox_sfista stubbed: record whether they were handed a finite model"],
                               expect=['nonfinite-model:zero-step-handed-back'], nproc=1))
+    for n in ([1, 2] if tier == 'quick' else [1, 2]):
+        hs.append(Harness("sfista-overflow[n=%d]" % n, 'dfverif.checks.c08', 'body_sfista_overflow', params=dict(n=n),
+                          cfg=core.Cfg(fork_queries=True, qtimeout_ms=30000), functions=['trust_region.ctrsbox_sfista'],
+                          bounds="n=%d; finite model of any size; spectral norm of H = any value in [0,+inf] (overflow of a finite matrix norm included); 1 S-FISTA iteration" % n,
+                          assumptions=["np.linalg.norm(H, 2) by contract (LAPACK); NaN norm excluded (the model is finite)"],
+                          expect=['sfista-overflow:returned'], nproc=1, wall_budget=200))
     for h in c17.harnesses('quick', seed):
         if h.params['npt_so_far'] == h.params['num_pts'] and not h.params['with_h'] and \
                 h.params['op'] in ('save_point_abs', 'get_final_results', 'change_point', 'add_new_sample', 'add_new_point'):
